@@ -212,13 +212,9 @@ def skip_op(real, o, w, F):
     for s in op_sources(o):
         if s[0] == "node":
             sk = live[s[1]]
-            if sk[1] in ("docroot", "docsib"):
-                return "offers a document root or one of its siblings"
             if o[0] in ("follow", "precede", "replace") and tgt[2] is None and sk[0] in ("comment", "pi") \
-                    and (tgt[0] in ("comment", "pi") or tgt[1] == "docroot"):
+                    and sk[1] is False and (tgt[0] in ("comment", "pi") or tgt[1] == "docroot"):
                 return "comment/PI as sibling of a root"
-            if o[0] == "setitem" and sk[1] is True:
-                return "item assignment of an attached node"
     return None
 
 
@@ -323,10 +319,11 @@ def run_history(ctx, rng, n_ops, hist_no, fixed=None):
             v1 = real.view_world()
         except KeyError as e:
             v1, view_err = None, "KeyError %s" % e
+        partial = exc is not None and len(op_sources(o)) > 1    # objects made before the refusal cannot be numbered
         rec["steps"].append({"F": F, "op": o, "exc": exc, "w": w1, "view": v1, "view_err": view_err,
-                             "classes": classes, "w_before_13b": world_has_13b(w)})
+                             "classes": classes, "w_before_13b": world_has_13b(w), "partial": partial})
         w = w1
-        if exc in ("ValueError", "AssertionError", "AttributeError") or view_err:
+        if exc in ("AssertionError", "AttributeError") or view_err or partial:
             break
     return rec
 
@@ -368,7 +365,7 @@ def compare(ctx, rec, val):
         if mexc != rexc:
             ctx.mismatch("cstep result vs implementation", {"case": case, "impl": st["exc"], "model": cr})
             return
-        if cr[0] == "crash":
+        if cr[0] == "crash" or st.get("partial"):
             return
         tie_broken = False
         if T.norm_cworld(cw) != st["w"]:
